@@ -113,6 +113,10 @@ def run(P, rep, tier):
             indw = [e for e in evs if e.kind == 'stream-write' and e.data['stream'] is not fp]
             for e in indw:
                 d_ = e.data['data']
+                if is_concrete(d_) and isinstance(concrete(d_), bytes):
+                    if concrete(d_).strip(b' '):
+                        probs7.add('indentation writes %r, not ASCII spaces' % (concrete(d_),))
+                    continue
                 if isinstance(d_, Unk) and d_.src and d_.src[0] == 'binop' and d_.src[1] == 'Mult':
                     if not (is_concrete(d_.src[2]) and concrete(d_.src[2]) == b' '):
                         probs7.add('indentation uses %r, not ASCII spaces' % (concrete(d_.src[2]),))
